@@ -1,7 +1,80 @@
 """C13 (and C14) - the formula language of tfel::math::Evaluator (Evaluator.tla)."""
 from vflib.lattice import lattice_check
 
+import json
+import os
+import subprocess
+from vflib import core
+from vflib.core import Broken
+
 ONLY = None
+
+
+def cxx_stage(ctx, cases, obs_path):
+    """second stage of observation: the strings returned by getCxxFormula are compiled (as C++ functions of two doubles) and evaluated
+    at (2, 3); the value, reduced to an exact integer like the others, is added to the observation as `cxxv`."""
+    obs = core.read_ndjson(obs_path)
+    todo = [o for o in obs if o.get("kind") in ("arith", "cond") and o.get("cxx")]
+    step = 1 if ctx.thorough else 3
+    todo = [o for i, o in enumerate(todo) if i % step == 0 or o["kind"] == "cond"]
+    nparts = 8
+    d = ctx.path("cxx")
+    os.makedirs(d, exist_ok=True)
+    import re
+
+    def write_part(part, mine):
+        src = os.path.join(d, "f%d.cxx" % part)
+        with open(src, "w") as f:
+            f.write('#include <cmath>\n#include <cstdio>\n#include "TFEL/Config/TFELConfig.hxx"\n#include "TFEL/Math/power.hxx"\n')
+            for o in mine:
+                f.write("static double f%d(const double x, const double y) { static_cast<void>(x); static_cast<void>(y); return %s; }\n" % (o["id"], o["cxx"]))
+            f.write("int main() {\n")
+            for o in mine:
+                f.write('  std::printf("%d %%.17g\\n", f%d(2., 3.));\n' % (o["id"], o["id"]))
+            f.write("  return 0;\n}\n")
+        argv = ["g++", "-std=c++20", "-O0", "-w", "-DNDEBUG", "-I" + os.path.join(core.REPO, "include"), "-I" + os.path.join(core.BUILD, "include"),
+                src, "-o", os.path.join(d, "f%d" % part)]
+        return subprocess.Popen(argv, stdout=subprocess.PIPE, stderr=subprocess.STDOUT, text=True)
+
+    parts = {part: todo[part::nparts] for part in range(nparts)}
+    nocompile = set()
+    vals = {}
+    for rnd_ in range(4):
+        procs = [(part, write_part(part, mine)) for part, mine in parts.items() if mine]
+        again = {}
+        for part, p in procs:
+            out, _ = p.communicate(timeout=1200)
+            if p.returncode != 0:
+                # formulas that do not compile are observations ("nocompile"), the others are compiled again without them
+                bad = {int(i) for i in re.findall(r"double f(\d+)\(const double x", out)}
+                if not bad or rnd_ == 3:
+                    raise Broken("the C++ formulas of part %d do not compile:\n%s" % (part, out[-3000:]))
+                nocompile |= bad
+                again[part] = [o for o in parts[part] if o["id"] not in bad]
+                continue
+            r = subprocess.run([os.path.join(d, "f%d" % part)], stdout=subprocess.PIPE, text=True, timeout=300)
+            if r.returncode != 0:
+                raise Broken("the compiled C++ formulas of part %d crashed (exit %d)" % (part, r.returncode))
+            for line in r.stdout.split("\n"):
+                if line.strip():
+                    i, v = line.split()
+                    vals[int(i)] = float(v)
+        parts = again
+        if not parts:
+            break
+    for o in obs:
+        if o.get("kind") not in ("arith", "cond"):
+            continue
+        if o["id"] in vals:
+            den = o["den"] if o["kind"] == "arith" else 1
+            v = vals[o["id"]] * den
+            q = round(v) if v == v and abs(v) < 1e15 else 0
+            o["cxxv"] = {"got": "value", "q": int(q), "tight": bool(v == v and abs(v - q) <= 1e-9 * max(1.0, abs(v)))}
+        elif o["id"] in nocompile:
+            o["cxxv"] = {"got": "nocompile", "q": 0, "tight": False}
+        else:
+            o["cxxv"] = {"got": "skip", "q": 0, "tight": False}
+    core.write_ndjson(obs_path, obs)
 
 
 def keep(f):
@@ -22,8 +95,10 @@ def run(ctx, keep=lambda f: not f.startswith("derivative")):
                               "parentheses, alone and inside an arithmetic expression, each printed with minimal and with full parentheses; "
                               "non-trivial = contains an operator or a function",
                          nontrivial=lambda c: c["kind"] != "arith" or c["tree"]["t"] not in ("num", "var"),
-                         sig=lambda f, b: f, keep=keep,
+                         sig=lambda f, b: f, keep=keep, post_run=cxx_stage,
                          assumptions=["function values are compared with the C library function of the documented name (4 ulp), not with exact values",
                                       "function derivatives (and derivatives of powers whose exponent depends on the variable) are compared with a Richardson finite difference of the evaluator's own values (1e-6)",
-                                      "getCxxFormula, resolveDependencies, parameter rewriting and physical constants are not covered",
+                                      "getCxxFormula: the returned string is compiled as the body of a C++ function of two doubles and evaluated at (2, 3) for every "
+                                      "conditional case and one arithmetic tree out of three (all in thorough); functions are not covered",
+                                      "resolveDependencies, parameter rewriting and physical constants are not covered",
                                       "'!' is only generated in front of a parenthesised logical expression; '!=' is not part of the language (refused)"])
